@@ -437,6 +437,7 @@ package service
 //@   params cl src
 //@   atomic
 //@   requires cl != nil && keyListOK(src)
+//@   ensures[C01,C09,C10,the-new-list-is-installed] cl.list == src
 
 // MakeCipherEntry: keys whose salt leaves at least 16 random bytes after the 4-byte mark (salt
 // size >= 20) get the marking generator keyed from this very secret; others the plain random one.
@@ -734,6 +735,13 @@ package service
 //@   trace[C03,known-client-decrypted-with-its-key-only] each service.(*natmap).Get satisfies $res0 != nil ==> evcount("service.findAccessKeyUDP") == 0 && evcount("shadowsocks.Unpack") == 1
 //@   trace[C03,new-client-tries-the-key-list] each service.(*natmap).Get satisfies $res0 == nil ==> evcount("service.findAccessKeyUDP") == 1 && evcount("shadowsocks.Unpack") == 0
 //@   trace[C05,one-validation-per-datagram] atmost 1 service.(*packetHandler).validatePacket
+//@   trace[C03,C05,validates-the-decrypted-datagram-of-a-new-client] each service.findAccessKeyUDP satisfies $res3 == nil ==> evcount("service.(*packetHandler).validatePacket") == 1 && (evcount("service.(*packetHandler).validatePacket") == 1 ==> sameslice(evarg("service.(*packetHandler).validatePacket", 1), $res0))
+//@   trace[C03,C05,validates-the-decrypted-datagram-of-a-known-client] each shadowsocks.Unpack satisfies $res1 == nil ==> evcount("service.(*packetHandler).validatePacket") == 1 && (evcount("service.(*packetHandler).validatePacket") == 1 ==> sameslice(evarg("service.(*packetHandler).validatePacket", 1), $res0))
+//@   trace[C03,C16,undecryptable-datagram-status] each shadowsocks.Unpack satisfies $res1 != nil ==> result != nil && result.Status == "ERR_CIPHER"
+//@   trace[C03,C16,unauthenticated-datagram-status] each service.findAccessKeyUDP satisfies $res3 != nil ==> result != nil && result.Status == "ERR_CIPHER"
+//@   trace[C05,C16,refused-destination-status] each service.(*packetHandler).validatePacket satisfies $res2 != nil ==> result == $res2 && evcount("service.(*natconn).WriteTo") == 0
+//@   trace[C16,failed-send-status] each service.(*natconn).WriteTo satisfies ($res1 != nil ==> result != nil && result.Status == "ERR_WRITE") && ($res1 == nil ==> result == nil)
+//@   trace[C03,C04,valid-datagram-is-sent] each service.(*packetHandler).validatePacket satisfies (evcount("net.ListenPacket") == 0 || evres("net.ListenPacket", 1) == nil) && $res2 == nil ==> evcount("service.(*natconn).WriteTo") == 1
 //@   trace[C05,sent-to-validated-address] each service.(*natconn).WriteTo satisfies evres("service.(*packetHandler).validatePacket", 2) == nil && $arg2 != nil && as($arg2, "*net.UDPAddr") == evres("service.(*packetHandler).validatePacket", 1)
 //@   trace[C03,payload-from-validation] each service.(*natconn).WriteTo satisfies sameslice($arg1, evres("service.(*packetHandler).validatePacket", 0))
 //@   trace[C03,no-traffic-without-key] never service.(*natconn).WriteTo when result != nil && result.Status == "ERR_CIPHER"
